@@ -1569,6 +1569,88 @@ static C04Res c16Once(const Instance& I, const ParamSet& cfg, int loadMode, int 
    return R;
 }
 
+// exact (rational) solves stopped by a limit: variant 0..3 iteration limit k, 4 refinement limit 0, 5 refinement limit 1 with stalling
+// limit 1, 6 time limit 0.  Judged: a definite status must be the certified one and an OPTIMAL answer must carry the exact optimal value;
+// after lifting the limit the same object must reach the certified status and the exact optimum.
+static C04Res c16Exact(const Instance& I, int variant, bool count)
+{
+   Sink& S = sink();
+   C04Res R;
+   const LPModel& M = I.M;
+   if(!(I.T.known && I.T.robust) || M.m == 0 || M.n == 0 || M.m > 14 || M.n > 14) return R;
+   int tst = I.T.status == REF_OPTIMAL ? (int)SPX::OPTIMAL : I.T.status == REF_INFEASIBLE ? (int)SPX::INFEASIBLE : (int)SPX::UNBOUNDED;
+   SoPlex sp;
+   quiet(sp);
+   sp.setIntParam(SoPlex::SYNCMODE, SoPlex::SYNCMODE_AUTO, true);
+   sp.setIntParam(SoPlex::READMODE, SoPlex::READMODE_RATIONAL, true);
+   sp.setIntParam(SoPlex::SOLVEMODE, SoPlex::SOLVEMODE_RATIONAL, true);
+   sp.setIntParam(SoPlex::CHECKMODE, SoPlex::CHECKMODE_RATIONAL, true);
+   sp.setRealParam(SoPlex::FEASTOL, 0.0, true);
+   sp.setRealParam(SoPlex::OPTTOL, 0.0, true);
+   loadRational(sp, M, 0);
+   Q offset = qd(sp.realParam(SoPlex::OBJ_OFFSET));
+   std::string mname;
+   if(variant <= 3)
+   {
+      mname = "exact.iterlimit";
+      sp.setIntParam(SoPlex::ITERLIMIT, variant, true);
+   }
+   else if(variant == 4)
+   {
+      mname = "exact.reflimit0";
+      sp.setIntParam(SoPlex::REFLIMIT, 0, true);
+   }
+   else if(variant == 5)
+   {
+      mname = "exact.reflimit1";
+      sp.setIntParam(SoPlex::REFLIMIT, 1, true);
+      sp.setIntParam(SoPlex::STALLREFLIMIT, 1, true);
+   }
+   else
+   {
+      mname = "exact.timelimit0";
+      sp.setRealParam(SoPlex::TIMELIMIT, 0.0, true);
+   }
+   auto judge = [&](const char* phase, bool mustDecide)
+   {
+      int st = (int)sp.status();
+      if(count) S.count("c16." + mname + "." + phase + "." + statusName(st));
+      if(definiteStatus(st))
+      {
+         if(!sameVerdict(st, tst))
+         {
+            R.set(mname + "." + phase + ".status." + statusName(st), std::string("exact solve ") + phase + " reports " + statusName(st) + " but the LP is certified " + statusName(tst));
+            return;
+         }
+         if(st == SPX::OPTIMAL && sp.hasSol())
+         {
+            Q ov = Q(sp.objValueRational());
+            if(ov != I.T.objval + offset && ov != I.T.objval)
+               R.set(mname + "." + phase + ".objective", std::string("exact solve ") + phase + " reports OPTIMAL with value " + qs(ov) + ", certified optimum " + qs(I.T.objval));
+         }
+      }
+      else if(mustDecide) R.set(mname + "." + phase + ".undecided." + statusName(st), std::string("after lifting the limit the exact solve ends with ") + statusName(st) + " (certified " + statusName(tst) + ")");
+   };
+   sp.optimize();
+   if(count) S.count("c16.exact.stops");
+   judge("stopped", false);
+   if(!R.tag.empty()) return R;
+   // lift every limit and continue on the same object
+   sp.setIntParam(SoPlex::ITERLIMIT, 200000, true);
+   sp.setIntParam(SoPlex::REFLIMIT, -1, true);
+   sp.setIntParam(SoPlex::STALLREFLIMIT, -1, true);
+   sp.setRealParam(SoPlex::TIMELIMIT, 60.0, true);
+   sp.optimize();
+   if((int)sp.status() == SPX::ABORT_TIME)
+   {
+      if(count) S.count("c16.exact.inconclusive_time_budget");
+      return R;
+   }
+   if(count) S.count("c16.exact.resumed");
+   judge("resumed", true);
+   return R;
+}
+
 static void caseC16(long long k, Rng& g)
 {
    Sink& S = sink();
@@ -1629,6 +1711,17 @@ static void caseC16(long long k, Rng& g)
                 ", full config " + cfg.key(), replayJson(I.M, cfg, mc, loadMode));
       }
    }
+   // exact solves with limits (default exact configuration; the algorithmic configuration of the case is not applied)
+   if(!reported)
+      for(int v = 0; v < 7; v++)
+      {
+         C04Res r = c16Exact(I, v, true);
+         if(!r.tag.empty())
+         {
+            S.viol("C16:" + r.tag + ":{}", r.detail + " | family " + fam + " " + std::to_string(I.M.m) + "x" + std::to_string(I.M.n), replayJson(I.M, ParamSet(), ParamSet(), 0));
+            break;
+         }
+      }
    if(k < 4) S.sample(Json().str("family", fam).num("m", I.M.m).num("n", I.M.n).str("config", cfg.key()).num("N", N).num("stop_points",
                          (long long)pts.size()).done());
    S.end(k);
